@@ -32,8 +32,9 @@ class FieldSpec:
 
 
 class ClassSpec:
-    def __init__(self, name, base, own, falsy=False, slots=False):
+    def __init__(self, name, base, own, falsy=False, slots=False, mixins=()):
         self.name, self.base, self.own, self.falsy, self.slots = name, base, own, falsy, slots
+        self.mixins = tuple(mixins)   # secondary base classes (multiple inheritance), after the primary base
 
 
 class Universe:
@@ -58,13 +59,32 @@ class Universe:
         return universe_from_json(d2)
 
     # ----- what the model is told
-    def bases(self, cname):
-        out = []
+    def direct_bases(self, cname):
         c = self.by_name[cname]
-        while c.base is not None:
-            out.append(c.base)
-            c = self.by_name[c.base]
+        return ([c.base] if c.base is not None else []) + list(c.mixins)
+
+    def linearize(self, cname):
+        """C3 linearisation (Python's MRO) without ASTNode/object"""
+        bs = self.direct_bases(cname)
+        seqs = [self.linearize(b) for b in bs] + [list(bs)]
+        out = [cname]
+        while any(seqs):
+            for sq in seqs:
+                if not sq:
+                    continue
+                h = sq[0]
+                if not any(h in o[1:] for o in seqs):
+                    break
+            else:
+                raise ValueError("inconsistent hierarchy")
+            out.append(h)
+            seqs = [[x for x in sq if x != h] if sq and sq[0] == h else sq for sq in seqs]
+            seqs = [sq for sq in seqs]
         return out
+
+    def bases(self, cname):
+        """MRO tail: nearest first, ASTNode excluded"""
+        return self.linearize(cname)[1:]
 
     def term(self):
         return Con("CT", [Con("Cls", c.name, self.bases(c.name), [f.term() for f in c.own]) for c in self.classes])
@@ -101,7 +121,7 @@ class Universe:
         for c in self.classes:
             deco = "@dataclass(frozen=True, slots=True)" if c.slots else "@dataclass(frozen=True)"
             L.append(deco)
-            L.append(f"class {c.name}({c.base or 'ASTNode'}):")
+            L.append(f"class {c.name}({', '.join(self.direct_bases(c.name)) or 'ASTNode'}):")
             body = []
             for f in c.own:
                 body.append("    " + self.field_line(f))
@@ -302,9 +322,19 @@ def gen_universe(rng, n_roots=None, max_levels=3, rich=True, force_falsy=False):
                 sib = next(letters) + tag
                 plan.append((sib, parent))
             parent = sub
-    all_names = [p[0] for p in plan]
+    # multiple inheritance: field-less mixin classes (direct ASTNode subclasses) used as secondary bases
+    mixin_names = []
+    if rich and rng.random() < 0.35:
+        for k in range(rng.randint(1, 2)):
+            mixin_names.append("M" + "xyz"[k] + tag)
+    all_names = mixin_names + [p[0] for p in plan]
+    for mname in mixin_names:
+        classes.append(ClassSpec(mname, None, [], falsy=False))
+    plan = [(m, None) for m in mixin_names] + plan
     fname_pool = ["a", "ab", "b", "child", "items", "x", "xs", "y", "z", "left", "right", "body", "name", "value", "t", "n"]
     for idx, (cname, base) in enumerate(plan):
+        if cname in mixin_names:
+            continue
         avail = all_names if future else all_names[:idx]  # classes that can be named in annotations
         inherited = []
         if base is not None:
@@ -359,7 +389,10 @@ def gen_universe(rng, n_roots=None, max_levels=3, rich=True, force_falsy=False):
                 o = FieldSpec(g.name, "Prop", ptype=g.ptype, compare=not g.compare, init=True, kw_only=g.kw_only,
                               has_default=g.has_default, default=g.default)
                 own.append(o)
-        classes.append(ClassSpec(cname, base, own, falsy=rng.random() < 0.15, slots=False))
+        mix = []
+        if mixin_names and rng.random() < 0.45:
+            mix = sorted(rng.sample(mixin_names, k=rng.randint(1, len(mixin_names))))
+        classes.append(ClassSpec(cname, base, own, falsy=rng.random() < 0.15, slots=False, mixins=mix))
     u = Universe(classes, enum_name, future, uid)
     if force_falsy:
         # make sure some single-child field can hold a node that is falsy in a boolean context
@@ -516,7 +549,7 @@ def universe_to_json(u):
     from .term import to_text
 
     return {"uid": u.uid, "enum": u.enum_name, "future": u.future,
-            "classes": [{"name": c.name, "base": c.base, "falsy": c.falsy, "slots": c.slots,
+            "classes": [{"name": c.name, "base": c.base, "falsy": c.falsy, "slots": c.slots, "mixins": list(c.mixins),
                          "own": [{"name": f.name, "role": f.role, "compare": f.compare, "init": f.init, "kw_only": f.kw_only,
                                   "ptype": f.ptype, "child_types": list(f.child_types), "fixed": f.fixed,
                                   "has_default": f.has_default,
@@ -536,6 +569,6 @@ def universe_from_json(d):
         for c in d["classes"]:
             own = [FieldSpec(f["name"], f["role"], f["compare"], f["init"], f["kw_only"], f["ptype"], f["child_types"], f["fixed"],
                              None if f["default"] is None else from_text(f["default"]), f["has_default"]) for f in c["own"]]
-            classes.append(ClassSpec(c["name"], c["base"], own, c["falsy"], c["slots"]))
+            classes.append(ClassSpec(c["name"], c["base"], own, c["falsy"], c["slots"], c.get("mixins", ())))
         _U_CACHE[key] = Universe(classes, d["enum"], d["future"], d["uid"])
     return _U_CACHE[key]
